@@ -106,7 +106,10 @@ class TokenParser(object):
         return string
 
     def _parse_escape_sequence(self):  # type: () -> str
-        if self._next_ in ['"', "'"]:
+        if self._next_ is None:
+            # A trailing backslash escapes nothing: keep it as is
+            sequence = "\\"
+        elif self._next_ in ['"', "'"]:
             sequence = self._next_
         else:
             sequence = "\\" + self._next_
